@@ -13,7 +13,7 @@ func init() {
 		technique: "static analysis: module call-graph who-may-open check, SSA typestate (open → IsHidden-false edge → sink), guard-edge dominance for redirects; decision table of FileServer.serveFile against a modelled file system (hidden files, abstract evaluation E10)",
 		run:       runC02,
 		decided: "R1 the file-serving handlers reach the disk only through the jailed http.FileSystem (no os/ioutil/filepath file access reachable from their ServeHTTP without going through Next), and every FileServer is rooted at http.Dir; " +
-			"R2 every file that can reach a content sink (ServeContent or any other call given the opened file, a listing entry, an archive member) is tested with IsHidden on its own FileInfo and the sink lies on the not-hidden edge, and the file server's decision table (serveFile evaluated against a modelled file system: hidden file, offered codings, existing and hidden siblings) never hands a hidden file to ServeContent; " +
+			"R2 every file that can reach a content sink (ServeContent or any other call given the opened file, a listing entry, an archive member) is tested with IsHidden on its own FileInfo and the sink lies on the not-hidden edge, and the file server's decision table (serveFile evaluated against a modelled file system: hidden file, offered and refused codings, existing and hidden siblings) never hands a hidden file to ServeContent and serves a precompressed sibling only in a coding the client accepts; " +
 			"R3 every redirect issued by these handlers targets a copy of the request URL whose path had leading '//' stripped; " +
 			"R4 the Casketfile is added to the hidden list by a parsing callback registered on the root directive.",
 		notDecided: "correctness of http.Dir's own path cleaning (stdlib, trusted); symlinks leaving the root; os.SameFile semantics; that only regular files are served.",
@@ -232,6 +232,8 @@ func c02R2(h H) {
 		}
 		r.Check(t.hidden == "" && t.other == "", "R2", "staticfiles.FileServer.serveFile/hidden-table", pos,
 			"evaluated against a modelled file system for every combination of hidden file, offered codings, existing and hidden siblings: a file on the hide list is never handed to http.ServeContent — not as the requested file (404) and not as its precompressed variant", sprintf("%d cases evaluated", t.cases), t.hidden, t.other)
+		r.Check(t.sibling == "" && t.other == "", "R2", "staticfiles.FileServer.serveFile/accepted-sibling-table", pos,
+			"in the same table: what is handed to http.ServeContent is the requested file or its precompressed sibling in a coding the client offered and did not refuse (q=0)", sprintf("%d cases evaluated", t.cases), t.sibling, t.other)
 	}
 	// --- browse: archive members
 	if fn := h.fn("R2", brPkg, "Browse.ServeArchive"); fn != nil {
